@@ -6,6 +6,8 @@ RULE = ("2-4 trees with distinct root names plus unrooted nodes / arrays / dicts
         "order: list or tuple saves (mixed lists incl. rooted direct children), whole-root appends, append-overs, targeted appends; "
         "raw walk after every save, then read without path and read of every root; oracle: one top-level tree per root name, "
         "untargeted trees and the header/UUID unchanged by every save, documented layout of mixed lists; "
+        "same-named children planted in different trees (and preferred by the list generator), a node path of one tree spelling "
+        "'<root of another tree>/<a child of it>' with a directed three-save stream; "
         "non-trivial = file ends with >= 2 roots; distinct by recipe hash")
 
 
